@@ -534,7 +534,88 @@ func runAlertRules(c *Ctx) {
 			}
 		}
 	}
+	// the set may be kept in an unexported field of a per-alert bookkeeping object and filled by one of its methods,
+	// called for every selector: the set is then known by its field
+	setField := ""
+	fieldKey := func(v ssa.Value) string {
+		ld, ok := v.(*ssa.UnOp)
+		if !ok || ld.Op != token.MUL {
+			return ""
+		}
+		fa, ok := ld.X.(*ssa.FieldAddr)
+		if !ok {
+			return ""
+		}
+		if _, ok := c.P.unexportedFieldStores(fa); !ok {
+			return ""
+		}
+		return typeName(fa.X.Type()) + "." + fieldName(fa.X.Type(), fa.Field)
+	}
+	if informedRoutes == nil {
+		for b := range sel.Blocks {
+			for _, in := range b.Instrs {
+				cs, ok := in.(*ssa.Call)
+				if !ok {
+					continue
+				}
+				g := staticCallee(cs)
+				if g == nil || !c.P.isModuleFn(g) || len(g.Blocks) == 0 || fnPkgPath(g) != fnPkgPath(fn) {
+					continue
+				}
+				for _, gb := range g.Blocks {
+					for _, gin := range gb.Instrs {
+						mu, ok := gin.(*ssa.MapUpdate)
+						if !ok || mu.Map.Type().String() != "map[string]bool" || fieldKey(mu.Map) == "" {
+							continue
+						}
+						setField = fieldKey(mu.Map)
+						bb := newBinder(c)
+						var args []string
+						for _, a := range cs.Call.Args {
+							args = append(args, bb.bind(a))
+						}
+						okKey := len(args) == len(g.Params) && strings.Contains(bb.withArgs(g, args).bind(mu.Key), "proto:EntitySelector.RouteId")
+						c.Check(okKey, "ALERT", fname, "explicitly informed routes are recorded by the selector's route id", p.ipos(mu), "informedRoutes[*entity.RouteId] = true", "the set of explicitly informed routes is filled from something other than the selector's route id")
+					}
+				}
+			}
+		}
+	}
 	nFallback := 0
+	if setField != "" {
+		// fallback appends in the bookkeeping object's methods called after the selector loop
+		for _, b := range fn.Blocks {
+			if sel.Blocks[b] || !sel.Header.Dominates(b) {
+				continue
+			}
+			for _, in := range b.Instrs {
+				cs, ok := in.(*ssa.Call)
+				if !ok {
+					continue
+				}
+				g := staticCallee(cs)
+				if g == nil || !c.P.isModuleFn(g) || len(g.Blocks) == 0 || fnPkgPath(g) != fnPkgPath(fn) {
+					continue
+				}
+				for _, gb := range g.Blocks {
+					for _, gin := range gb.Instrs {
+						call, ok := gin.(*ssa.Call)
+						if !ok || !isEntAppend(call) {
+							continue
+						}
+						nFallback++
+						guarded := false
+						for _, ce := range dominatingConds(gb) {
+							if lk, isLk := ce.Cond.(*ssa.Lookup); isLk && fieldKey(lk.X) == setField && !ce.Val {
+								guarded = true
+							}
+						}
+						c.Check(guarded, "ALERT", fname, "route fallback only for routes not informed explicitly", p.ipos(call), "append dominated by !informedRoutes[route], tested after all selectors were seen", "a route-only trip descriptor adds a route entity although the alert may already inform that route explicitly (the test must be made after the selector loop, whatever the selector order)")
+					}
+				}
+			}
+		}
+	}
 	for _, b := range fn.Blocks {
 		if sel.Blocks[b] {
 			continue
@@ -709,6 +790,36 @@ func iterationPaths(l *Loop) []pathFacts {
 				return
 			}
 			seen[f.ce.Cond] = f.ce.Val
+		}
+		// nor can two spellings of one comparison with a constant (`x != "1"` earlier, `x == "1"` later), and a value
+		// cannot equal two different constants
+		eqs := map[ssa.Value]map[string]bool{} // subject (the very SSA value) -> constant -> equal?
+		for _, f := range pf.facts {
+			cond, val := normalizeCond(f.ce.Cond, f.ce.Val)
+			bo, ok := cond.(*ssa.BinOp)
+			if !ok || (bo.Op != token.EQL && bo.Op != token.NEQ) {
+				continue
+			}
+			k, isC := bo.Y.(*ssa.Const)
+			if !isC || k.Value == nil {
+				continue
+			}
+			subj, kc := bo.X, constKey(k)
+			eq := (bo.Op == token.EQL) == val
+			if eqs[subj] == nil {
+				eqs[subj] = map[string]bool{}
+			}
+			if old, has := eqs[subj][kc]; has && old != eq {
+				return
+			}
+			if eq {
+				for other, oeq := range eqs[subj] {
+					if other != kc && oeq {
+						return
+					}
+				}
+			}
+			eqs[subj][kc] = eq
 		}
 		out = append(out, pf)
 	})
